@@ -171,7 +171,11 @@ def gen_case(rng, n_ops=None, invalid_rate=0.15, pf_level=True):
             else:
                 a = rng.choice(list(quotes))
                 q = rng.choice([1, -1]) * rng.choice([1, 5, 20])
-                ops.append(['pftxn', pid, a, int(q), int(t), gen_price(rng), rng.choice([0.0, 1.5, rng.uniform(0, 9)])])
+                price = rng.choice([-1.0, 0.0]) if bad and rng.random() < 0.5 else gen_price(rng)
+                if rng.random() < 0.3:
+                    # a mark ahead of the transaction: the position's clock is then later than the portfolio's
+                    ops.append(['pfmark', pid, a, gen_price(rng), int(t) + rng.choice([30, 100])])
+                ops.append(['pftxn', pid, a, int(q), int(t), price, rng.choice([0.0, 1.5, rng.uniform(0, 9)])])
                 pfs[pid]['held'][a] = pfs[pid]['held'].get(a, 0) + q
             if t > now:
                 pass
